@@ -11,6 +11,10 @@ def run(c):
         "Go stack exhaustion from ~10^7-deep nesting in Hash is not modelled",
         "record level: one fixture project (a function target referencing a constant, a helper with a default, a list/tuple/dict global); "
         "the persisted stamp is the only corrupted input; rename atomicity of the file system is assumed",
+        "well-formedness of what the host unpickler builds is the host's obligation (abstract `construct` in the model): checked on the "
+        "real envUnpickler by the walker (no nil / typed-nil node; Type, Truth, Hash, Len, iteration, String do not panic) in streams dec.env-*",
+        "a case that kills or hangs the worker process is attributed by re-running in announce-every-case mode; after 3 such cases the run "
+        "stops (the check has failed; each costs seconds)",
         "INT text other than canonical decimal: the model answers `either` (Go may accept or reject), so only no-crash is constrained",
     ]
     c.coverage["rule"] = (
@@ -19,8 +23,13 @@ def run(c):
         "every truncation of encodings of <=200 bytes; grammar-guided opcode soups of 1-40 fragments (well-formed list/dict/set/host "
         "fragments mixed with hostile ops: out-of-range memo ids, wrong operand types, odd SETITEMS, declared lengths beyond what "
         "follows, 24 INT texts, unknown opcodes), with host unpickler / nil unpickler / panicking host; all programs of two "
-        "implemented opcodes. Each Decode runs under recover and a 20 s watchdog. Record level: 60 (3000 thorough) corruptions of "
-        "a persisted function-target record, each followed by Load+Run in a child process. Non-trivial = Go answers ok; distinct by input.")
+        "implemented opcodes; every prefix of every encoding of <=450 bytes (so INT text of 2^31..10^200 cut at every digit). With dawn's "
+        "envUnpickler as host: a genuine function-environment record under every single-byte substitution by an implemented opcode "
+        "(all 256 values thorough) at every position, every truncation, 3000 (100000) double mutations. Every decoded value is walked "
+        "for well-formedness. Each Decode runs under recover and a 5 s watchdog in a supervised worker process (a hang or a dead "
+        "process is a violation with the bytes as replay). Record level: 60 (3000 thorough) corruptions of "
+        "a persisted function-target record plus 48 (all) single-byte shape flips ) N ] -> N ] } True False EMPTY_SET ), each followed "
+        "by Load+Run in a child process (a child without a result line — Go panic, fatal error, signal — is a crash violation). Non-trivial = Go answers ok; distinct by input.")
     c.prove()
     exe = pc.harness(c)
     drv = c.driver("drv_pickle")
